@@ -67,14 +67,13 @@ def ensure_built(generate=True):
                 gen_log = generate_all.main()
             except Exception as e:  # extraction itself failing is reported by the properties that depend on it
                 gen_log = 'EXTRACT-FAILED: %r' % (e,)
-        rc, out = run(['lake', 'build'], cwd=LEAN, timeout=7200)
-        _built = (rc == 0 and os.path.exists(DRIVER), gen_log + '\n' + out)
-        if not os.path.exists(DRIVER):
-            # the driver only depends on the import-free model files: try to build it alone
-            rc2, out2 = run(['lake', 'build', 'pmcdrv'], cwd=LEAN, timeout=3600)
-            _built = (False, _built[1] + '\n' + out2)
-            if not os.path.exists(DRIVER):
-                raise HarnessError('cannot build the Lean driver:\n' + out2[-3000:])
+        # the driver depends only on the import-free model and the generated tables: it must build
+        rc1, out1 = run(['lake', 'build', 'pmcdrv'], cwd=LEAN, timeout=7200)
+        if rc1 != 0 or not os.path.exists(DRIVER):
+            raise HarnessError('cannot build the Lean driver:\n' + out1[-3000:])
+        # the library (proofs, property theorems, generated obligations) may fail: the caller decides what that means
+        rc, out = run(['lake', 'build', 'PMC'], cwd=LEAN, timeout=7200)
+        _built = (rc == 0, gen_log + '\n' + out1[-2000:] + '\n' + out)
     finally:
         fcntl.flock(lock, fcntl.LOCK_UN)
         lock.close()
@@ -364,7 +363,9 @@ class Result(object):
         for k in self.known:
             print('KNOWN-FINDING: property=%s %s' % (self.pid, k))
         if self.violations:
-            for what, replay, no_input in self.violations[:5]:
+            concrete = [v for v in self.violations if not v[2]]
+            shown = concrete if concrete else self.violations
+            for what, replay, no_input in shown[:5]:
                 path = self.write_replay(what, replay)
                 tail = ' no-failing-input-found' if no_input else ''
                 print('VIOLATION property=%s replay=%s%s' % (self.pid, path, tail))
